@@ -4,6 +4,7 @@ import (
 	"bytes"
 	"compress/gzip"
 	"crypto/rand"
+	"crypto/sha256"
 	"encoding/base64"
 	"encoding/hex"
 	"fmt"
@@ -113,6 +114,13 @@ func decompressToken(compressed string) string {
 	return string(decompressed)
 }
 
+// deriveBlockKey derives the 32-byte AES-256 key used to encrypt cookie contents
+// from the configured session key.
+func deriveBlockKey(encryptionKey string) []byte {
+	sum := sha256.Sum256([]byte("traefikoidc-cookie-encryption:" + encryptionKey))
+	return sum[:]
+}
+
 // SessionManager handles the management of multiple session cookies for OIDC authentication.
 // It provides functionality for storing and retrieving authentication state, tokens,
 // and other session-related data across multiple cookies.
@@ -144,7 +152,7 @@ func NewSessionManager(encryptionKey string, forceHTTPS bool, logger *Logger) (*
 	}
 
 	sm := &SessionManager{
-		store:      sessions.NewCookieStore([]byte(encryptionKey)),
+		store:      sessions.NewCookieStore([]byte(encryptionKey), deriveBlockKey(encryptionKey)),
 		forceHTTPS: forceHTTPS,
 		logger:     logger,
 	}
